@@ -103,7 +103,8 @@ def mid_mutation(rng, names, leaves):
         names[k] = names[k - 1]          # the same identifier on both sides of the mutating operand
     nm = names[k]
     over = {}
-    if rng.random() < 0.7:
+    # (`-` is never REBOUND: negative literals such as (-2) are calls of whatever `-` names)
+    if nm == "-" or rng.random() < 0.7:
         p = rng.choice([x for x in PREC_VALUES if x is not None])
         stmt = "%s::precedence = %s" % (nm, repr(p))
         for i in range(k, n):
